@@ -158,3 +158,11 @@ Proof.
   apply model_request_slices; [apply BackendsOk.env_of_ok; exact HW|exact Hb].
 Qed.
 Print Assumptions address_level_request_slices.
+
+(* ---- the scanner loop shells and SWAR helpers translated from /repo/src/simd/*.rs on this run are the ones
+   `Backends.env_of` is built from (Proofs/TieLoops.v, TieSwarFns.v): a rewritten loop shell breaks this obligation of
+   this property too ---- *)
+From HV.Proofs Require TieLoops TieSwarFns.
+Theorem loop_shells_of_this_run : TieLoops.loop_shells_tied.
+Proof. exact TieLoops.loop_shells_tied_pf. Qed.
+Print Assumptions loop_shells_of_this_run.
